@@ -46,10 +46,23 @@ impl UvMapping {
     ///
     /// returns: Option<(usize, [f64; 3])>
     pub fn triangle(&self, point: &Point2) -> Option<(usize, [f64; 3])> {
-        let result = self
-            .tri_map
-            .project_local_point_and_get_location(point, false);
-        let (_, (t_id, loc)) = result;
-        Some((t_id as usize, loc.barycentric_coordinates().unwrap()))
+        // In 2D a point inside a triangle is inside the shape. Queried as a non-solid shape it
+        // would be pushed out to the nearest edge, and queried as a solid shape it projects onto
+        // itself but no barycentric coordinates are reported. So only the triangle and the
+        // projected point are taken from the query and the coordinates are computed here.
+        let (prj, (t_id, _)) = self.tri_map.project_local_point_and_get_location(point, true);
+        let tri = self.tri_map.triangle(t_id);
+
+        let ab = tri.b - tri.a;
+        let ac = tri.c - tri.a;
+        let ap = prj.point - tri.a;
+        let denom = ab.x * ac.y - ac.x * ab.y;
+        if denom == 0.0 {
+            return None;
+        }
+
+        let v = (ap.x * ac.y - ac.x * ap.y) / denom;
+        let w = (ab.x * ap.y - ap.x * ab.y) / denom;
+        Some((t_id as usize, [1.0 - v - w, v, w]))
     }
 }
